@@ -261,7 +261,9 @@ def run_roundtrip(env, f, rec, r):
         rec.violation("decode-mismatch", "ReceivingMessage decoded %s, sent %s" % (core.short(got), core.short(exp)), ("rt", picklable(f)))
         return
     # repo decoder, stream: message + second message + garbage, arbitrary fragmentation
-    second = wire.encode(5, 0, (f["seq"] + 1) & 0xFFFF, 2, b"second", [(b"SEC2", b"zz")])
+    # (behind a large message the second one is large too, but not larger: a receive buffer that is re-used would be overwritten by it)
+    second_body = b"second" if len(wirebytes) < 1200 else b"S" * r.randrange(1024, max(1025, len(wirebytes) - 60))
+    second = wire.encode(5, 0, (f["seq"] + 1) & 0xFFFF, 2, second_body, [(b"SEC2", b"zz")])
     garbage = bytes(r.randrange(256) for _ in range(r.randrange(0, 30)))
     stream = wirebytes + second + garbage
     frags = f["frags"] if len(stream) < 3000 else [max(x, 997) for x in f["frags"]]
@@ -281,11 +283,23 @@ def run_roundtrip(env, f, rec, r):
         return
     try:
         m2 = P.recv_stub(conn)
-        ok2 = (m2.type, m2.seq, bytes(m2.data), {k: bytes(v) for k, v in m2.annotations.items()}) == (5, (f["seq"] + 1) & 0xFFFF, b"second", {"SEC2": b"zz"})
+        ok2 = (m2.type, m2.seq, bytes(m2.data), {k: bytes(v) for k, v in m2.annotations.items()}) == (5, (f["seq"] + 1) & 0xFFFF, second_body, {"SEC2": b"zz"})
     except Exception as x:
         ok2 = False
     if not ok2 or fs.pos != len(wirebytes) + len(second):
         rec.violation("wrong-consumption", "the message following on the stream was not decoded intact (pos=%d want %d)" % (fs.pos, len(wirebytes) + len(second)), ("rt", picklable(f)))
+        return
+    # the first message is still what was sent, now that the next one has been received over the same connection
+    if len(second_body) > 6:
+        rec.count("large_message_followed_by_large_message")
+    try:
+        m1.annotations.pop("ZZZZ", None)       # (what this consumer wrote into it itself)
+        still = msg_fields_repo(m1)
+    except Exception as x:
+        still = ("raised", repr(x))
+    if still != exp:
+        rec.violation("decoded-message-changed-by-next-message", "a message decoded by recv_stub (%d bytes) held %s; after the next message (%d bytes) was received on the same connection it holds %s" % (
+            len(wirebytes), core.short(exp), len(second), core.short(still)), ("rt", picklable(f)))
         return
     # decode . encode . decode == decode
     env.ctx.correlation_id = uuid.UUID(bytes=got[6]) if got[1] & wire.F_CORR else None
